@@ -62,6 +62,8 @@ pub enum ModelEvaluatorError {
   EmptyFunctionBody,
   #[error("empty value expression")]
   EmptyValueExpression,
+  #[error("cyclic requirements, `{0}` requires itself")]
+  CyclicRequirements(String),
   #[error("decision table has no output clauses")]
   DecisionTableWithoutOutputs,
   #[error("rule {0} of decision table has {1} input and {2} output entries, expected {3} and {4}")]
@@ -128,6 +130,10 @@ pub fn err_empty_function_body() -> DmntkError {
 
 pub fn err_empty_value_expression() -> DmntkError {
   ModelEvaluatorError::EmptyValueExpression.into()
+}
+
+pub fn err_cyclic_requirements(id: &str) -> DmntkError {
+  ModelEvaluatorError::CyclicRequirements(id.to_string()).into()
 }
 
 pub fn err_decision_table_without_outputs() -> DmntkError {
